@@ -260,11 +260,15 @@ static size_t client_step(int stream, int pattern, vrng* g, int keep, int leave_
         double held = now_s() - g_cl_map_t;
         if (pattern == CL_HOLD && held < 0.02 && !leave_mapped) return 0;
         size_t nbytes = (size_t)((uint8_t*)g_cl_end - (uint8_t*)g_cl_beg), consume = nbytes;
-        if (pattern == CL_PARTIAL && g_cl_beg < g_cl_end && vrng_chance(g, 1, 2)) consume = g_cl_beg->bytes_of_frame; // first frame only
+        if (pattern == CL_PARTIAL && g_cl_beg < g_cl_end && vrng_chance(g, 1, 2)) consume = g_cl_beg->bytes_of_frame <= nbytes ? (size_t)g_cl_beg->bytes_of_frame : nbytes; // first frame only
         // partial consumption: the unconsumed frames are mapped (and recorded) again: drop their records
         if (consume < nbytes) {
             size_t nfr = 0; uint8_t* c = (uint8_t*)g_cl_beg;
-            while (c < (uint8_t*)g_cl_end) { ++nfr; c += ((struct VideoFrame*)c)->bytes_of_frame; }
+            while (c < (uint8_t*)g_cl_end) {
+                size_t bof = (size_t)((struct VideoFrame*)c)->bytes_of_frame;
+                if (bof < sizeof(struct VideoFrame) || bof > (size_t)((uint8_t*)g_cl_end - c)) break; // malformed region (reported by client_record)
+                ++nfr; c += bof;
+            }
             if (nfr > 1 && g_ncl >= nfr - 1) { for (size_t i = g_ncl - (nfr - 1); i < g_ncl; ++i) free(g_cl[i].pixels); g_ncl -= nfr - 1; }
         }
         if (acquire_unmap_read(g_rt, (uint32_t)stream, consume) != AcquireStatus_Ok) ++g_cl_errors;
@@ -920,7 +924,7 @@ static void run_case(const char* mode, uint64_t seed, unsigned long icase, int v
             if (a.end == END_ABORT_IN_APPEND) { a.s[0].sto.append_min_us = 2000; a.s[0].sto.append_max_us = 5000; }
             if (a.end != END_ABORT_AFTER_DONE && vrng_chance(&g, 1, 2)) for (int i = 0; i < 2; ++i) if (a.s[i].on && a.s[i].N < 1000) a.s[i].N = (uint64_t)-1; // endless until abort
             a.abort_from_thread = 1;
-            if (vrng_chance(&g, 1, 10) && a.end != END_ABORT_WAIT_TRIGGER && a.s[0].type == SampleType_f32 &&
+            if (vrng_chance(&g, 1, 10) && a.end != END_ABORT_WAIT_TRIGGER && a.end != END_ABORT_AFTER_DONE && a.s[0].type == SampleType_f32 &&
                 frame_bytes(a.s[0].w, a.s[0].h, SampleType_f32) + 64 < g_cap_sink[0]) {
                 a.s[0].avg = (uint32_t)vrng_range(&g, 2, 4); a.s[0].trig = 0; a.s[0].N = (uint64_t)-1; ++C.dead_filter_aborts; // unsupported input type: the filter thread exits
             }
@@ -946,6 +950,13 @@ static void run_case(const char* mode, uint64_t seed, unsigned long icase, int v
         if (is05) { a.end = vrng_chance(&g, 1, 2) ? END_STOP_NOW : END_WAIT_DONE_THEN_STOP; }
         }
         if (g_cl_first_map_label >= 0 && a.client == CL_NONE) a.client = client_kind; // a registered reader must keep draining
+        if (a.client != CL_NONE && g_cl_first_map_label < 0 && q > 0 && (a.end == END_STOP_NOW || a.end == END_STOP_DELAY || a.end == END_WAIT_DONE_THEN_STOP)) {
+            // a client that joins in a later acquisition is handed what is left of the earlier ones first (known finding
+            // late-join-sees-earlier-acquisition): how much is outstanding is then unknown, so it neither holds a region
+            // nor sits inside an early stop() (stop waits for completion by design; only the client can make room)
+            if (a.client == CL_HOLD) a.client = CL_EAGER;
+            a.end = END_WAIT_DONE_THEN_STOP;
+        }
         if (a.no_configure && a.client == CL_HOLD)
             for (int i = 0; i < 2; ++i) if (a.s[i].on && a.s[i].N > 60 && a.s[i].N != (uint64_t)-1) a.client = CL_EAGER; // the frame count cannot be changed without configuring
         if (a.client != CL_NONE && (a.end == END_STOP_NOW || a.end == END_STOP_DELAY)) {
@@ -1118,9 +1129,13 @@ int main(int argc, char** argv)
     int verbose = argc > 5;
     g_loud = getenv("VERIF_LOUD") != 0;
     load_mock();
+    double t_violated = 0;
     for (unsigned long c = first; c < first + count; ++c) {
+        double t_case = now_s();
         if (!strcmp(g_mode, "c08")) run_program(seed, c, verbose, 0); else if (!strcmp(g_mode, "c08h")) run_program(seed, c, verbose, 1); else run_case(g_mode, seed, c, verbose);
-        if (g_nviol > 8) break;
+        if (g_nviol > 8 || g_nviol_other > 24) break; // enough witnesses (observations for other properties' checks are bounded, too)
+        if (g_case_violated) t_violated += now_s() - t_case;
+        if (g_nviol >= 3 && t_violated > 90) break;   // witnesses that each cost a watchdog: three are enough
     }
     printf("S {\"mode\":\"%s\",\"cases\":%lu,\"violations\":%lu,\"acquisitions\":%lu,\"camera_frames\":%lu,\"storage_frames\":%lu,\"client_frames\":%lu,"
            "\"ring_wraps\":%lu,\"writer_sleeps\":%lu,\"stops\":%lu,\"aborts\":%lu,\"two_stream_acqs\":%lu,\"averaging_acqs\":%lu,\"averaged_windows_checked\":%lu,"
